@@ -24,7 +24,9 @@ FUNCS = {
         'SOCKSProxy._detect_proxy'],
 }
 
-# table name -> (protocol, with credentials, function byte -> reply stream)
+# table name -> (protocol, with credentials, function byte -> reply stream[, feeding mode])
+# feeding mode: 'bytewise' (default: one byte per NeedData) or 'exact' (as many bytes as the
+# NeedData asked for; used for the long domain-name replies)
 TAIL = [0] * 300
 
 
@@ -43,22 +45,28 @@ def _streams():
         's5ConnRsv': ('5', False, lambda b: [5, 0, 5, 0, b, 1, 9, 9, 9, 9, 0, 80, 7]),
         's5ConnAtyp': ('5', False, lambda b: [5, 0, 5, 0, 0, b, 2] + [9] * 20),
         's5ConnAtypRefused': ('5', False, lambda b: [5, 0, 5, 1, 0, b, 2] + [9] * 20),
-        's5ConnLen': ('5', False, lambda b: [5, 0, 5, 0, 0, 3, b] + TAIL[:b + 3]),
-        's5ConnLenAuth': ('5', True, lambda b: [5, 2, 1, 0, 5, 0, 0, 3, b] + TAIL[:b + 3]),
+        's5ConnLen': ('5', False, lambda b: [5, 0, 5, 0, 0, 3, b] + TAIL[:b + 3], 'exact'),
+        's5ConnLenAuth': ('5', True, lambda b: [5, 2, 1, 0, 5, 0, 0, 3, b] + TAIL[:b + 3], 'exact'),
+        's5ConnLenShort': ('5', False, lambda b: [5, 0, 5, 0, 0, 3, b] + TAIL[:b + 1], 'exact'),
     }
 
 
-def summary(socks, client, stream):
-    """feed `stream` one byte at a time on demand -> (verdict, bytes asked for and fed)"""
+def summary(socks, client, stream, mode='bytewise'):
+    """feed `stream` on demand (one byte per NeedData, or exactly the count asked for)
+    -> (verdict, bytes fed)"""
     fed = 0
     for _ in range(len(stream) + 8):
         try:
             m = client.next_message()
-        except socks.NeedData:
+        except socks.NeedData as e:
             if fed == len(stream):
                 return (4, fed)
-            client.receive_data(bytes(stream[fed:fed + 1]))
-            fed += 1
+            k = 1 if mode == 'bytewise' else e.args[0]
+            if not isinstance(k, int) or k < 1:
+                return (3, fed)
+            chunk = bytes(stream[fed:fed + k])
+            client.receive_data(chunk)
+            fed += len(chunk)
             continue
         except socks.SOCKSFailure:
             return (1, fed)
@@ -77,9 +85,12 @@ def extract(repo):
     addr = util.NetAddress(IPv4Address('1.2.3.4'), 80)
     auth = socks.SOCKSUserAuth('u', 'p')
     tables = {}
-    for name, (proto, creds, fn) in _streams().items():
+    for name, spec in _streams().items():
+        proto, creds, fn = spec[:3]
+        mode = spec[3] if len(spec) > 3 else 'bytewise'
         cls = socks.SOCKS4 if proto == '4' else socks.SOCKS5
-        tables[name] = [summary(socks, cls(addr, auth if creds else None), fn(b)) for b in range(256)]
+        tables[name] = [summary(socks, cls(addr, auth if creds else None), fn(b), mode)
+                        for b in range(256)]
     tree = common.parse(repo, 'aiorpcx/socks.py')
     caught = []
     node = common.find(tree, 'SOCKSProxy._connect_one')
